@@ -30,9 +30,12 @@ def run(tier, runner):
         r_ew.require(10 ** 9, 'exact capacity requests (reserve must contain one: positive control)')
     r_sa = round5.shrink_all(progs + real)
     r_sa.require(1, 'StdVectorBase::shrink_impl')
+    from ..rules import objlayout
+    r_gl = objlayout.grow_layout([p_ for p_ in progs if 'flavour' in p_.meta])
+    r_gl.require(4, 'grow / shrink / resetToSmall instantiations of the vector bases')
     return {
-        'results': [r_geo, r_one, r_gg, r_gs, r_ew, r_si, r_gb, r_sa],
-        'explanation': 'SHRINK-ALL: amc::vector shrinks whenever size differs from capacity, emptied vectors included.  GEO: the return expression of SafeNextCapacity is interpreted in the domain of affine lower bounds a*oldCapa + b*newSize + c '
+        'results': [r_geo, r_one, r_gg, r_gs, r_ew, r_si, r_gb, r_sa, r_gl],
+        'explanation': 'GROW-LAYOUT: grow / shrink / resetToSmall of SmallVectorBase and StdVectorBase are interpreted over the whole object (size words as linear forms, storage pointer, inline / owned / new block in one index space, allocator events recorded) once per state of the inline encoding: afterwards all size() elements are in the designated storage in order, nothing else is alive, the words decode to the same size and the new capacity (or to the inline state with the full marker exactly when size == N), the old block was given back exactly once with its capacity and the requested block is the one pointed to.  SHRINK-ALL: amc::vector shrinks whenever size differs from capacity, emptied vectors included.  GEO: the return expression of SafeNextCapacity is interpreted in the domain of affine lower bounds a*oldCapa + b*newSize + c '
                        '(constants fold, +, *k, /k with floor, max = union, min(x,K) = clamp): the verdict needs a bound with a*a >= 2 (today a = 3/2), a '
                        'bound with b >= 1, the clamp equal to numeric_limits<size_type>::max() and the overflow throw; the exact path returns the request. '
                        'ONE-GROW: no capacity adjustment in a loop, at most one per object per path; GROW-SHAPE: one allocator request per grow; '
